@@ -35,18 +35,18 @@ func (c Cond) String() string {
 }
 
 type Sink struct {
-	Fn      *ssa.Function
-	Pos     token.Pos
-	Kind    string // index | slice-low | slice-high | make | hex-decode | div | panic | type-assert | loop-bound
-	Operand string // atom of the operand that must be bounded
-	Base    string // atom of the indexed / sliced object ("" when not applicable)
-	BaseLen int64  // static length for arrays, -1 otherwise
-	Conds   []Cond // conditions that hold when the sink executes (whole call chain)
-	Chain   []string
-	Expr    string // stable fingerprint for known findings
-	Terms   []string // checked-arith: the leaf terms (affine atoms) of all operands
-	BoundedCall bool // the operand is a call of a module function whose every return is bounded by BaseLen
-	Instr       ssa.Instruction // the indexing / slicing instruction (for the linear fallback)
+	Fn          *ssa.Function
+	Pos         token.Pos
+	Kind        string // index | slice-low | slice-high | make | hex-decode | div | panic | type-assert | loop-bound
+	Operand     string // atom of the operand that must be bounded
+	Base        string // atom of the indexed / sliced object ("" when not applicable)
+	BaseLen     int64  // static length for arrays, -1 otherwise
+	Conds       []Cond // conditions that hold when the sink executes (whole call chain)
+	Chain       []string
+	Expr        string                   // stable fingerprint for known findings
+	Terms       []string                 // checked-arith: the leaf terms (affine atoms) of all operands
+	BoundedCall bool                     // the operand is a call of a module function whose every return is bounded by BaseLen
+	Instr       ssa.Instruction          // the indexing / slicing instruction (for the linear fallback)
 	ShrinkBody  map[*ssa.BasicBlock]bool // the base is re-sliced around a loop (s = s[1:]): that loop's blocks; only conditions established inside it speak about the current length
 }
 
